@@ -9,112 +9,207 @@ structure SInv (s : SS) : Prop where
   run : s.handler = .running → s.phase = .opn ∨ s.phase = .hcr ∨ s.phase = .closedReset
   nopanic : s.fly ≠ .panicFrame
   fin : s.fly = .endFrame → s.handler = .finished
+  /-- no frame is queued in the write scheduler for a stream closed by completion (or never opened):
+      closeStream forgets the stream's queue -/
+  qidle : s.phase = .closedDone ∨ s.phase = .idle → s.q = []
+  /-- response frames are queued only by a handler that has ended -/
+  qfin : ∀ f ∈ s.q, f = .winupd ∨ s.handler = .finished
+  qnp : ∀ f ∈ s.q, f ≠ .panicRst
 
-theorem sinv_default : SInv {} := ⟨by simp, by simp, by simp, by simp⟩
+theorem sinv_default : SInv {} :=
+  ⟨by simp, by simp, by simp, by simp, by simp, by simp, by simp⟩
 
 def Out.isPanic : Out → Bool
   | .panic _ => true
   | _ => false
 
-theorem sstep_inv (s : SS) (e : SEv) (hne : e ≠ .pan) (h : SInv s) :
+/-- a state that differs only in fields the invariant does not read -/
+theorem sinv_same (s s' : SS) (h : SInv s) (hp : s'.phase = s.phase) (hb : s'.hasBody = s.hasBody)
+    (hh : s'.handler = s.handler) (hf : s'.fly = s.fly) (hq : s'.q = s.q) : SInv s' :=
+  ⟨by rw [hp, hb]; exact h.body, by rw [hp, hh]; exact h.run, by rw [hf]; exact h.nopanic,
+   by rw [hf, hh]; exact h.fin, by rw [hp, hq]; exact h.qidle, by rw [hq, hh]; exact h.qfin, by rw [hq]; exact h.qnp⟩
+
+/-- closed by a reset (queue forgotten) -/
+theorem sinv_reset (s s' : SS) (h : SInv s) (hp : s'.phase = .closedReset)
+    (hh : s'.handler = s.handler) (hf : s'.fly = s.fly) (hq : s'.q = []) : SInv s' := by
+  refine ⟨?_, fun _ => Or.inr (Or.inr hp), ?_, ?_, fun _ => hq, ?_, ?_⟩
+  · rw [hp]; intro x; cases x
+  · rw [hf]; exact h.nopanic
+  · rw [hf, hh]; exact h.fin
+  · rw [hq]; intro f hf'; cases hf'
+  · rw [hq]; intro f hf'; cases hf'
+
+/-- closed by a reset with nothing in flight any more -/
+theorem sinv_reset_nofly (s' : SS) (hp : s'.phase = .closedReset) (hf : s'.fly = .none) (hq : s'.q = []) : SInv s' := by
+  refine ⟨?_, fun _ => Or.inr (Or.inr hp), ?_, ?_, fun _ => hq, ?_, ?_⟩
+  · rw [hp]; intro x; cases x
+  · rw [hf]; intro x; cases x
+  · rw [hf]; intro x; cases x
+  · rw [hq]; intro f hf'; cases hf'
+  · rw [hq]; intro f hf'; cases hf'
+
+theorem sinv_closeReset (s : SS) (h : SInv s) : SInv (closeReset s) :=
+  sinv_reset s _ h rfl rfl rfl rfl
+
+/-- still live (open or half-closed(remote)), same queue or one more WINDOW_UPDATE -/
+theorem sinv_live (s s' : SS) (h : SInv s) (hp : s'.phase = .hcr ∨ (s'.phase = .opn ∧ s.phase = .opn))
+    (hb : s'.hasBody = s.hasBody) (hh : s'.handler = s.handler) (hf : s'.fly = s.fly)
+    (hq : s'.q = s.q ∨ s'.q = s.q ++ [QF.winupd]) : SInv s' := by
+  refine ⟨?_, ?_, by rw [hf]; exact h.nopanic, by rw [hf, hh]; exact h.fin, ?_, ?_, ?_⟩
+  · intro ho
+    rcases hp with hp | ⟨_, hp2⟩
+    · rw [hp] at ho; cases ho
+    · rw [hb]; exact h.body hp2
+  · intro _
+    rcases hp with hp | ⟨hp1, _⟩
+    · exact Or.inr (Or.inl hp)
+    · exact Or.inl hp1
+  · intro hc
+    rcases hp with hp | ⟨hp1, _⟩
+    · rw [hp] at hc; rcases hc with hc | hc <;> cases hc
+    · rw [hp1] at hc; rcases hc with hc | hc <;> cases hc
+  · intro f hf'
+    rcases hq with hq | hq
+    · rw [hq] at hf'; rw [hh]; exact h.qfin f hf'
+    · rw [hq, List.mem_append] at hf'
+      rcases hf' with hf' | hf'
+      · rw [hh]; exact h.qfin f hf'
+      · exact Or.inl (List.mem_singleton.mp hf')
+  · intro f hf'
+    rcases hq with hq | hq
+    · rw [hq] at hf'; exact h.qnp f hf'
+    · rw [hq, List.mem_append] at hf'
+      rcases hf' with hf' | hf'
+      · exact h.qnp f hf'
+      · rw [List.mem_singleton.mp hf']; intro x; cases x
+
+/-- the events of a schedule without handler panic never hand a handlerPanicRST to the scheduler -/
+def SEv.noPanicFrame : SEv → Bool
+  | .handlerFrames fs => fs.all fun f => f != .panicRst
+  | .start _ => false          -- `start` is used by the scheduler only, see `start_inv`
+  | _ => true
+
+theorem sstep_inv (s : SS) (e : SEv) (hne : e.noPanicFrame = true) (h : SInv s) :
     SInv (sstep s e).1 ∧ (sstep s e).2.isPanic = false := by
-  obtain ⟨hb, hr, hn, hf⟩ := h
   cases e with
-  | pan => exact absurd rfl hne
+  | start f => cases hne
   | hnew es ok over d iws =>
     simp only [sstep]
     split
-    · refine ⟨⟨?_, by simp, by simp, by simp⟩, rfl⟩
+    · refine ⟨⟨?_, by simp, by simp, by simp, by simp, by simp, by simp⟩, rfl⟩
       cases es <;> simp
     · split
-      · exact ⟨⟨by simp, by simp, by simp, by simp⟩, rfl⟩
-      · refine ⟨⟨?_, ?_, by simp, by simp⟩, rfl⟩
+      · exact ⟨⟨by simp, by simp, by simp, by simp, by simp, by simp, by simp⟩, rfl⟩
+      · refine ⟨⟨?_, ?_, by simp, by simp, by simp, by simp, by simp⟩, rfl⟩
         · cases es <;> simp
         · cases es <;> simp
   | hagain es pseudo =>
     simp only [sstep]
     split
-    · exact ⟨⟨hb, hr, hn, hf⟩, rfl⟩
+    · exact ⟨h, rfl⟩
     · split
-      · exact ⟨⟨by simp [closeReset], by simp [closeReset], hn, hf⟩, rfl⟩
+      · exact ⟨sinv_closeReset s h, rfl⟩
       · split
-        · exact ⟨⟨hb, hr, hn, hf⟩, rfl⟩
+        · exact ⟨h, rfl⟩
         · rename_i hlive hhcr _
           have hopn : s.phase = .opn := by
             simp only [SS.live, Bool.or_eq_true, beq_iff_eq, Bool.not_eq_true] at hlive hhcr
             cases hp : s.phase <;> simp_all
           split
-          · exact ⟨⟨by simp [closeReset], by simp [closeReset], hn, hf⟩, rfl⟩
+          · exact ⟨sinv_reset s _ h rfl rfl rfl rfl, rfl⟩
           · split
-            · exact ⟨⟨by simp [closeReset], by simp [closeReset], hn, hf⟩, rfl⟩
+            · exact ⟨sinv_reset s _ h rfl rfl rfl rfl, rfl⟩
             · split
               · rename_i hnb
-                simp [hb hopn] at hnb
-              · exact ⟨⟨by simp, fun _ => Or.inr (Or.inl rfl), hn, hf⟩, rfl⟩
-  | data n es =>
+                simp [h.body hopn] at hnb
+              · exact ⟨sinv_live s _ h (Or.inl rfl) rfl rfl rfl (Or.inl rfl), rfl⟩
+  | data n es pad =>
     simp only [sstep]
     split
     · split
-      · exact ⟨⟨by simp [closeReset], by simp [closeReset], hn, hf⟩, rfl⟩
-      · exact ⟨⟨hb, hr, hn, hf⟩, rfl⟩
+      · exact ⟨sinv_closeReset s h, rfl⟩
+      · exact ⟨h, rfl⟩
     · rename_i hc
       have hopn : s.phase = .opn := by
         have h1 : (s.live && s.phase == .opn && !s.trailer) = true := by simpa using hc
         simp only [Bool.and_eq_true, beq_iff_eq] at h1
         exact h1.1.2
       split
-      · rename_i hnb; simp [hb hopn] at hnb
+      · rename_i hnb; simp [h.body hopn] at hnb
       · split
-        · exact ⟨⟨by simp [closeReset], by simp [closeReset], hn, hf⟩, rfl⟩
-        · skip
+        · exact ⟨sinv_closeReset s h, rfl⟩
+        · have hq : (if pad > 0 then s.q ++ [QF.winupd] else s.q) = s.q ∨
+              (if pad > 0 then s.q ++ [QF.winupd] else s.q) = s.q ++ [QF.winupd] := by
+            split
+            · exact Or.inr rfl
+            · exact Or.inl rfl
           split
-          · exact ⟨⟨by simp, fun _ => Or.inr (Or.inl rfl), hn, hf⟩, rfl⟩
-          · exact ⟨⟨hb, hr, hn, hf⟩, rfl⟩
+          · exact ⟨sinv_live s _ h (Or.inl rfl) rfl rfl rfl hq, rfl⟩
+          · exact ⟨sinv_live s _ h (Or.inr ⟨hopn, hopn⟩) rfl rfl rfl hq, rfl⟩
   | rstc =>
     simp only [sstep]
     split
-    · exact ⟨⟨by simp [closeReset], by simp [closeReset], hn, hf⟩, rfl⟩
-    · exact ⟨⟨hb, hr, hn, hf⟩, rfl⟩
-  | fin =>
+    · exact ⟨sinv_closeReset s h, rfl⟩
+    · exact ⟨h, rfl⟩
+  | handlerFrames fs =>
     simp only [sstep]
     split
-    · exact ⟨⟨hb, hr, hn, hf⟩, rfl⟩
+    · exact ⟨h, rfl⟩
     · rename_i hrun
       have hrun' : s.handler = .running := by simpa using hrun
-      have := hr hrun'
-      split
-      · exact ⟨⟨hb, by simp, hn, by simp⟩, rfl⟩
-      · rename_i hp; rcases this with h | h | h <;> simp [h] at hp
-      · rename_i hp; rcases this with h | h | h <;> simp [h] at hp
-      · exact ⟨⟨hb, by simp, by simp, by simp⟩, rfl⟩
-  | finQueued =>
-    simp only [sstep]
-    split
-    · exact ⟨⟨hb, hr, hn, hf⟩, rfl⟩
-    · exact ⟨⟨hb, by simp, hn, by simp⟩, rfl⟩
+      have hph := h.run hrun'
+      simp only [SEv.noPanicFrame, List.all_eq_true, bne_iff_ne] at hne
+      refine ⟨⟨h.body, by simp, h.nopanic, by simp, ?_, ?_, ?_⟩, rfl⟩
+      · intro hc
+        simp only [] at hc
+        rcases hc with hc | hc <;> rcases hph with hp | hp | hp <;> rw [hp] at hc <;> cases hc
+      · intro f _; exact Or.inr rfl
+      · intro f hf'
+        simp only [List.mem_append] at hf'
+        rcases hf' with hf' | hf'
+        · exact h.qnp f hf'
+        · exact hne f hf'
   | winUpd inc =>
     simp only [sstep]
     split
-    · exact ⟨⟨hb, hr, hn, hf⟩, rfl⟩
+    · exact ⟨h, rfl⟩
     · split
-      · exact ⟨⟨hb, hr, hn, hf⟩, rfl⟩
-      · exact ⟨⟨by simp [closeReset], by simp [closeReset], hn, hf⟩, rfl⟩
+      · exact ⟨sinv_same s _ h rfl rfl rfl rfl rfl, rfl⟩
+      · exact ⟨sinv_closeReset s h, rfl⟩
   | badWinUpd =>
     simp only [sstep]
     split
-    · exact ⟨⟨by simp [closeReset], by simp [closeReset], hn, hf⟩, rfl⟩
-    · exact ⟨⟨hb, hr, hn, hf⟩, rfl⟩
+    · exact ⟨sinv_closeReset s h, rfl⟩
+    · exact ⟨h, rfl⟩
   | wrote =>
     simp only [sstep]
     split
-    · exact ⟨⟨hb, hr, hn, hf⟩, rfl⟩
+    · exact ⟨h, rfl⟩
     · rename_i hfly
-      have hfin := hf hfly
+      have hfin := h.fin hfly
       split
-      · exact ⟨⟨by simp [closeReset], by simp [closeReset], by simp [closeReset], by simp [closeReset]⟩, rfl⟩
-      · exact ⟨⟨by simp, by simp [hfin], by simp, by simp⟩, rfl⟩
-      · exact ⟨⟨hb, by simp [hfin], by simp, by simp⟩, rfl⟩
-    · rename_i hfly; exact absurd hfly hn
+      · exact ⟨sinv_reset_nofly _ rfl rfl rfl, rfl⟩
+      · refine ⟨⟨by simp, by simp [hfin], by simp, by simp, by simp, by simp, by simp⟩, rfl⟩
+      · rename_i hp1 hp2
+        refine ⟨⟨h.body, h.run, by simp, by simp, h.qidle, h.qfin, h.qnp⟩, rfl⟩
+    · rename_i hfly; exact absurd hfly h.nopanic
+
+/-- startFrameWrite for a frame the scheduler took from the stream's queue: the stream is not closed by
+    completion (its queue would be empty), so the "write on a closed stream" panic is not reached -/
+theorem start_inv (s : SS) (f : QF) (h : SInv s) (hp : s.phase ≠ .closedDone ∧ s.phase ≠ .idle)
+    (hf : f = .winupd ∨ s.handler = .finished) (hnp : f ≠ .panicRst) :
+    SInv (sstep s (.start f)).1 ∧ (sstep s (.start f)).2.isPanic = false := by
+  simp only [sstep]
+  split
+  · exact ⟨h, rfl⟩
+  · rename_i hc; exact absurd hc hp.1
+  · rename_i hc; exact absurd hc hp.2
+  · have hfin : f ≠ .winupd → s.handler = .finished := fun hn => hf.resolve_left hn
+    split
+    · exact ⟨⟨h.body, h.run, by simp, fun _ => hfin (by simp), h.qidle, h.qfin, h.qnp⟩, rfl⟩
+    · exact ⟨⟨h.body, h.run, by simp, fun _ => hfin (by simp), h.qidle, h.qfin, h.qnp⟩, rfl⟩
+    · exact absurd rfl hnp
+    · exact ⟨h, rfl⟩
 
 /-- connection invariant: every stream satisfies `SInv` -/
 def CInv (c : Conn) : Prop := ∀ id, SInv (c.streams id)
@@ -129,7 +224,7 @@ theorem cinv_upd (c : Conn) (id : Nat) (r : SS × Out) (h : CInv c) (hr : SInv r
 theorem upd_out (c : Conn) (id : Nat) (r : SS × Out) : (c.upd id r).2 = r.2 := rfl
 
 /-- a stream step followed by the bookkeeping of the connection -/
-theorem upd_step (c : Conn) (id : Nat) (e : SEv) (hne : e ≠ .pan) (h : CInv c) :
+theorem upd_step (c : Conn) (id : Nat) (e : SEv) (hne : e.noPanicFrame = true) (h : CInv c) :
     CInv (c.upd id (sstep (c.streams id) e)).1 ∧ (c.upd id (sstep (c.streams id) e)).2.isPanic = false := by
   obtain ⟨a, b⟩ := sstep_inv (c.streams id) e hne (h id)
   exact ⟨cinv_upd c id _ h a, b⟩
@@ -148,7 +243,8 @@ theorem settingsErr_inv (c : Conn) (f : Bool) (h : CInv c) :
   · exact ⟨(connErr_inv c 3 f h).1, rfl⟩
   · exact connErr_inv c 3 f h
 
-theorem sinv_flow (s : SS) (x : Int) (h : SInv s) : SInv { s with flow := x } := ⟨h.body, h.run, h.nopanic, h.fin⟩
+theorem sinv_flow (s : SS) (x : Int) (h : SInv s) : SInv { s with flow := x } :=
+  sinv_same s _ h rfl rfl rfl rfl rfl
 
 theorem growAll_inv (c : Conn) (g : Int) (st : Nat → SS) (h : CInv c) (hg : growAll c g = some st) :
     ∀ id, SInv (st id) := by
@@ -176,12 +272,12 @@ theorem headersEv_inv (c : Conn) (id : Nat) (es : Bool) (k : Kind) (h : CInv c) 
     · split
       · exact connErr_inv c 1 false h
       · split
-        · exact upd_step c id _ (by simp) h
+        · exact upd_step c id _ (by simp [SEv.noPanicFrame]) h
         · split
           · exact connErr_inv c 1 false h
           · simp only []
             have h' : CInv { c with maxId := id } := h
-            exact upd_step { c with maxId := id } id _ (by simp) h'
+            exact upd_step { c with maxId := id } id _ (by simp [SEv.noPanicFrame]) h'
 
 theorem cstepCore_inv (c : Conn) (e : Ev) (hp : e.isP = false) (h : CInv c) :
     CInv (cstepCore c e).1 ∧ (cstepCore c e).2.isPanic = false := by
@@ -189,37 +285,37 @@ theorem cstepCore_inv (c : Conn) (e : Ev) (hp : e.isP = false) (h : CInv c) :
   | P id => cases hp
   | H id es k => exact headersEv_inv c id es k h
   | K id es => exact headersEv_inv c id es .ok h
-  | D id n es =>
+  | D id n es pad =>
     simp only [cstepCore]
     split
     · exact connErr_inv c 1 true h
     · split
       · exact ⟨h, rfl⟩
-      · exact upd_step c id _ (by simp) h
+      · exact upd_step c id _ (by simp [SEv.noPanicFrame]) h
   | R id =>
     simp only [cstepCore]
     split
     · exact connErr_inv c 1 true h
     · split
       · exact connErr_inv c 1 false h
-      · exact upd_step c id _ (by simp) h
+      · exact upd_step c id _ (by simp [SEv.noPanicFrame]) h
   | F id =>
     simp only [cstepCore]
     split
     · exact ⟨h, rfl⟩
-    · split
-      · exact upd_step c id _ (by simp) h
-      · obtain ⟨a, b⟩ := upd_step c id .fin (by simp) h
-        split
-        · exact ⟨a, by rw [upd_out] at b ⊢; exact b⟩
-        · exact ⟨a, b⟩
+    · exact upd_step c id _ (by simp [SEv.noPanicFrame]) h
+  | B id n =>
+    simp only [cstepCore]
+    split
+    · exact ⟨h, rfl⟩
+    · exact upd_step c id _ (by simp [SEv.noPanicFrame]) h
   | W =>
     simp only [cstepCore]
     split
     · exact ⟨h, rfl⟩
     · rename_i id _
       have h' : CInv { c with held := none } := h
-      exact upd_step { c with held := none } id .wrote (by simp) h'
+      exact upd_step { c with held := none } id .wrote (by simp [SEv.noPanicFrame]) h'
   | S ack iws =>
     simp only [cstepCore]
     split
@@ -247,12 +343,12 @@ theorem cstepCore_inv (c : Conn) (e : Ev) (hp : e.isP = false) (h : CInv c) :
     split
     · split
       · exact connErr_inv c 1 true h
-      · exact upd_step c id _ (by simp) h
+      · exact upd_step c id _ (by simp [SEv.noPanicFrame]) h
     · split
       · split
         · exact ⟨h, rfl⟩
         · exact connErr_inv c 3 false h
-      · exact upd_step c id _ (by simp) h
+      · exact upd_step c id _ (by simp [SEv.noPanicFrame]) h
   | Y id dep excl =>
     simp only [cstepCore]
     split
@@ -267,12 +363,131 @@ theorem cstepCore_inv (c : Conn) (e : Ev) (hp : e.isP = false) (h : CInv c) :
     · exact ⟨h, rfl⟩
     · exact ⟨h, rfl⟩
 
+/-! ### the write scheduler -/
+
+/-- startFrameWrite on the stream record `s'` obtained from `c.streams id` by taking (part of) its queue head -/
+theorem startOn_inv (c : Conn) (id : Nat) (s' : SS) (f : QF) (h : CInv c) (hs : SInv s')
+    (hp : s'.phase ≠ .closedDone ∧ s'.phase ≠ .idle) (hf : f = .winupd ∨ s'.handler = .finished) (hnp : f ≠ .panicRst) :
+    CInv (startOn c id s' f).1 ∧ (startOn c id s' f).2.isPanic = false := by
+  obtain ⟨a, b⟩ := start_inv s' f hs hp hf hnp
+  have hc := cinv_upd c id (sstep s' (.start f)) h a
+  unfold startOn
+  simp only []
+  split
+  · exact ⟨hc, by rw [upd_out]; exact b⟩
+  · exact ⟨hc, b⟩
+
+/-- a stream with a non-empty queue is not closed by completion, and the queue head is a frame the invariant knows -/
+theorem head_facts (s : SS) (f : QF) (rest : List QF) (h : SInv s) (hq : s.q = f :: rest) :
+    (s.phase ≠ .closedDone ∧ s.phase ≠ .idle) ∧ (f = .winupd ∨ s.handler = .finished) ∧ f ≠ .panicRst := by
+  refine ⟨⟨?_, ?_⟩, h.qfin f (by rw [hq]; simp), h.qnp f (by rw [hq]; simp)⟩
+  · intro hc; have := h.qidle (Or.inl hc); rw [hq] at this; cases this
+  · intro hc; have := h.qidle (Or.inr hc); rw [hq] at this; cases this
+
+/-- the record after taking the head (or part of a DATA head) still satisfies the invariant -/
+theorem sinv_take (s : SS) (f : QF) (rest q' : List QF) (x : Int) (h : SInv s) (hq : s.q = f :: rest)
+    (hq' : q' = rest ∨ ∃ k k' es, f = .data k es ∧ q' = .data k' es :: rest) : SInv { s with flow := x, q := q' } := by
+  obtain ⟨⟨hp1, hp2⟩, hf, _⟩ := head_facts s f rest h hq
+  refine ⟨h.body, h.run, h.nopanic, h.fin, ?_, ?_, ?_⟩
+  · intro hc; rcases hc with hc | hc
+    · exact absurd hc hp1
+    · exact absurd hc hp2
+  · intro g hg
+    simp only [] at hg
+    rcases hq' with hq' | ⟨k, k', es, hfk, hq'⟩
+    · rw [hq'] at hg; exact h.qfin g (by rw [hq]; exact List.mem_cons_of_mem _ hg)
+    · rw [hq'] at hg
+      rcases List.mem_cons.mp hg with hg | hg
+      · rcases hf with hf | hf
+        · rw [hfk] at hf; cases hf
+        · exact Or.inr hf
+      · exact h.qfin g (by rw [hq]; exact List.mem_cons_of_mem _ hg)
+  · intro g hg
+    simp only [] at hg
+    rcases hq' with hq' | ⟨k, k', es, _, hq'⟩
+    · rw [hq'] at hg; exact h.qnp g (by rw [hq]; exact List.mem_cons_of_mem _ hg)
+    · rw [hq'] at hg
+      rcases List.mem_cons.mp hg with hg | hg
+      · rw [hg]; intro x; cases x
+      · exact h.qnp g (by rw [hq]; exact List.mem_cons_of_mem _ hg)
+
+theorem drainStep_inv (c : Conn) (r : Conn × Out) (h : CInv c) (hd : drainStep c = some r) :
+    CInv r.1 ∧ r.2.isPanic = false := by
+  unfold drainStep at hd
+  split at hd
+  · rename_i id _
+    split at hd
+    · rename_i f rest hq
+      cases hd
+      obtain ⟨hp, hf, hnp⟩ := head_facts (c.streams id) f rest (h id) hq
+      have hs := sinv_take (c.streams id) f rest rest (c.streams id).flow (h id) hq (Or.inl rfl)
+      exact startOn_inv c id _ f h hs hp hf hnp
+    · cases hd
+  · split at hd
+    · rename_i id _
+      split at hd
+      · rename_i len es rest hq
+        obtain ⟨hp, hf, _⟩ := head_facts (c.streams id) (.data len es) rest (h id) hq
+        have hfin : (c.streams id).handler = .finished := by
+          rcases hf with hf | hf
+          · cases hf
+          · exact hf
+        simp only [] at hd
+        split at hd
+        · cases hd
+          have hc' : CInv { c with cflow := c.cflow - min (min (c.streams id).flow c.cflow) maxFrame } := h
+          have hs := sinv_take (c.streams id) (.data len es) rest
+            (.data (len - (min (min (c.streams id).flow c.cflow) maxFrame).toNat) es :: rest)
+            ((c.streams id).flow - min (min (c.streams id).flow c.cflow) maxFrame) (h id) hq
+            (Or.inr ⟨len, _, es, rfl, rfl⟩)
+          exact startOn_inv _ id _ _ hc' hs hp (Or.inr hfin) (by intro x; cases x)
+        · cases hd
+          have hc' : CInv { c with cflow := c.cflow - (len : Int) } := h
+          have hs := sinv_take (c.streams id) (.data len es) rest rest ((c.streams id).flow - (len : Int)) (h id) hq (Or.inl rfl)
+          exact startOn_inv _ id _ _ hc' hs hp (Or.inr hfin) (by intro x; cases x)
+      · cases hd
+    · cases hd
+
+theorem drain_inv (fuel : Nat) (c : Conn) (h : CInv c) : CInv (drain fuel c).1 ∧ (drain fuel c).2 = none := by
+  induction fuel generalizing c with
+  | zero => exact ⟨h, rfl⟩
+  | succ n ih =>
+    simp only [drain]
+    split
+    · exact ⟨h, rfl⟩
+    · split
+      · exact ⟨h, rfl⟩
+      · rename_i c' site hd
+        have := (drainStep_inv c _ h hd).2
+        cases this
+      · rename_i c' o _ hd
+        exact ih c' (drainStep_inv c _ h hd).1
+
+theorem handlerOutcome_np (c : Conn) (id : Nat) : (handlerOutcome c id).isPanic = false := by
+  unfold handlerOutcome
+  split
+  · rfl
+  · split
+    · split <;> rfl
+    · rfl
+
 theorem cstep_inv (c : Conn) (e : Ev) (hp : e.isP = false) (h : CInv c) :
     CInv (cstep c e).1 ∧ (cstep c e).2.isPanic = false := by
   unfold cstep
   split
   · exact ⟨h, rfl⟩
-  · exact cstepCore_inv c e hp h
+  · obtain ⟨a, b⟩ := cstepCore_inv c e hp h
+    simp only []
+    split
+    · exact ⟨a, b⟩
+    · obtain ⟨d1, d2⟩ := drain_inv 1000 (cstepCore c e).1 a
+      rw [d2]
+      simp only []
+      split
+      · exact ⟨d1, handlerOutcome_np _ _⟩
+      · exact ⟨d1, handlerOutcome_np _ _⟩
+      · exact ⟨d1, handlerOutcome_np _ _⟩
+      · exact ⟨d1, b⟩
 
 theorem runEvs_no_panic (c : Conn) (evs : List Ev) (acc : List Out)
     (hp : ∀ e ∈ evs, e.isP = false) (h : CInv c) (hacc : ∀ o ∈ acc, o.isPanic = false) :
